@@ -29,7 +29,7 @@ CONFIGS = {
         ("roc/bits4", conf(StartIdx="{15, 24, 40}", MaxLen=5, MaxSent=4)),
         # exact thresholds: real 16-bit sequence numbers from the boundary alphabet
         ("boundary/bits16", conf(SeqBits=16, SeqAlpha=BOUNDARY, StartIdx="{1, 32767, 32768, 65535, 98304, 131071}",
-                                 MaxLen=4, MaxSent=4)),
+                                 MaxLen=5, MaxSent=5)),
         # several SSRCs interleaved, SRTCP
         ("multi/rtcp", conf(Ssrcs="{1, 2, 3}", SeqAlpha="{0, 1, 14, 15}", StartIdx="{15}", StepsFwd="{1, 2}",
                             StepsBack="{1}", WithRtcp="TRUE", MaxLen=4, MaxSent=4)),
@@ -37,7 +37,7 @@ CONFIGS = {
     ("C04", "thorough"): [
         ("roc/bits4", conf(StartIdx="{15, 24, 40}", MaxLen=6, MaxSent=5)),
         ("boundary/bits16", conf(SeqBits=16, SeqAlpha=BOUNDARY, StartIdx="{1, 32767, 32768, 65535, 98304, 131071}",
-                                 MaxLen=5, MaxSent=5)),
+                                 MaxLen=6, MaxSent=5)),
         ("multi/rtcp", conf(Ssrcs="{1, 2, 3}", SeqAlpha="{0, 1, 14, 15}", StartIdx="{15}", StepsFwd="{1, 2}",
                             StepsBack="{1}", WithRtcp="TRUE", MaxLen=5, MaxSent=5)),
     ],
@@ -77,6 +77,20 @@ CONFIGS = {
     ],
 }
 
+# G-sim: TLC -simulate with the same EmitEdge: every out-edge of every state visited on random deep paths, each with
+# its real, unmerged history (forged packets and ticks in the middle of genuine traffic - in the BFS transition cover a
+# forged step is a self-loop of the model state and therefore never part of a history prefix).
+# entries: (label, constants, traces quick, traces thorough)
+SIM = {
+    "C04": [("sim/2ssrc", conf(Ssrcs="{1, 2}", MaxRoc=3, StartIdx="{15, 30}", StepsFwd="{1, 2, 6, 7}", StepsBack="{1, 2, 7}",
+                               WithRtcp="TRUE", MaxLen=18, MaxSent=9), 40, 200)],
+    "C05": [("sim/forge", conf(Ssrcs="{1, 2}", ForgedSsrcs="{9}", MaxRoc=3, StartIdx="{15, 30}", StepsFwd="{1, 7}",
+                               StepsBack="{1}", WithRtcp="TRUE", WithTick="TRUE",
+                               RtpForgeKinds='{"flip_hdr", "flip_tag", "reseq", "wrongkey", "newssrc"}',
+                               RtcpForgeKinds='{"reindex", "flip_tag", "newssrc"}', ForgeOffsets="{1, 9}",
+                               MaxLen=16, MaxSent=8), 30, 200)],
+}
+
 INVARIANTS = "TypeOK SenderAgreement IndexAgreement NoPhantomIndex Rejected RtcpAccepted"
 PROPERTIES = "ForgeUnchanged AcceptanceStable RejectIsNoop IndexMonotone"
 
@@ -91,11 +105,12 @@ def write_cfg(path, c, emit, deviations="{}", props='{"C04", "C05", "EXT"}', emi
         f.write("\n".join(lines))
 
 
-def gen_edges(ck, pid, tier, label, consts, **tlc_kw):
-    """TLC: design check (invariants/action properties with Deviations = {}) + one EDGE line per (state, action)."""
+def gen_edges(ck, pid, tier, label, consts, emit_op="EmitEdge", **tlc_kw):
+    """TLC: design check (invariants/action properties with Deviations = {}) + one EDGE line per (state, action)
+    (or, with EmitFinal under -simulate, one per behaviour)."""
     safe = label.replace("/", "_")
     cfg = os.path.join(vlib.SPEC, f"MC_Srtp_{pid}_{tier}_{safe}.gen.cfg")
-    write_cfg(cfg, consts, emit=True)
+    write_cfg(cfg, consts, emit=True, emit_op=emit_op)
     edges = os.path.join(ck.dir, f"edges_{tier}_{safe}.ndjson")
     try:
         res = vlib.tlc("MC_Srtp", os.path.basename(cfg), tags=("EDGE",), sinks={"EDGE": edges},
@@ -118,7 +133,9 @@ def replay_edges(ck, edges, label, shards=8, bits="few", extra=()):
         p = vlib.run_bin("srtp", [edges, out, "--shard", f"{i}/{shards}", "--bits", bits] + list(extra), timeout=3000)
         if p.returncode != 0:
             raise vlib.ToolError(f"srtp replayer failed rc={p.returncode}: {p.stderr[-2000:]}")
-        return vlib.read_ndjson(out)
+        rows = vlib.read_ndjson(out)
+        _rm(out)
+        return rows
 
     rows = []
     with cf.ThreadPoolExecutor(max_workers=shards) as ex:
@@ -181,26 +198,47 @@ def nontrivial_edges(edges_path, pid, samples, want=6):
     return n, len(seen)
 
 
+def _rm(path):
+    if os.environ.get("VERIF_KEEP"):
+        return
+    try:
+        os.remove(path)
+    except OSError:
+        pass
+
+
 def run(pid, tier, rule_text, assumptions, bits="few"):
     ck = vlib.Check(pid, tier)
+    for f in os.listdir(ck.dir):          # replay files of an earlier run are stale
+        if f.startswith("violation_"):
+            _rm(os.path.join(ck.dir, f))
     vlib.build_harness(["srtp"])
-    cfgs = CONFIGS[(pid, tier)]
-    # TLC runs are single-worker (emission); run the configurations side by side
+    cfgs = [(label, consts, {}) for label, consts in CONFIGS[(pid, tier)]]
+    for label, consts, nq, nt in SIM[pid]:
+        n = nt if tier == "thorough" else nq
+        cfgs.append((label, consts, dict(simulate=n, depth=consts["MaxLen"] + 1)))
+    # TLC emission runs are single-worker; run the configurations side by side
     with cf.ThreadPoolExecutor(max_workers=len(cfgs)) as ex:
         futs = [ex.submit(gen_edges, ck, pid, tier, label, consts,
-                          timeout=3000 if tier == "thorough" else 900) for label, consts in cfgs]
+                          timeout=3000 if tier == "thorough" else 900, **kw) for label, consts, kw in cfgs]
         gen = [f.result() for f in futs]
     total_edges = total_nt = 0
     exhaustive = True
     tot = {}
-    for (label, consts), (res, edges) in zip(cfgs, gen):
+    for (label, consts, kw), (res, edges) in zip(cfgs, gen):
+        sim = "simulate" in kw
         ck.add_tlc(res, label)
-        rows, summ = replay_edges(ck, edges, label, bits=bits)
+        # forged steps inside histories are concretised sparsely; the bit-exhaustive mode is for the final action of G-edge
+        rows, summ = replay_edges(ck, edges, label, bits="few" if sim else bits)
         classify(ck, pid, rows, label)
-        n, nt = nontrivial_edges(edges, pid, ck.cov["samples"])
+        n, nt = nontrivial_edges(edges, pid, ck.cov["samples"], want=8 if sim else 6)
+        _rm(edges)
         total_edges += summ["edges"]
         total_nt += nt
-        exhaustive = exhaustive and res["finished"] and summ["edges"] == res["counts"]["EDGE"] == n
+        if not sim:
+            exhaustive = exhaustive and res["finished"] and summ["edges"] == res["counts"]["EDGE"] == n
+        elif summ["edges"] != res["counts"]["EDGE"]:
+            raise vlib.ToolError(f"{label}: replayed {summ['edges']} of {res['counts']['EDGE']} simulated edges")
         for k, v in summ.items():
             tot[k] = tot.get(k, 0) + v
     ck.cov["traces_validated_against_impl"] = total_edges
